@@ -58,6 +58,15 @@ def roundtrip(x, p):
         mid = p['mid'].encode('latin-1')
         k = n // 2
         text = text[:k] + pre + mid + post + text[k:]
+    if p.get('warmup'):
+        # another text was compressed earlier in the same process (p8tool
+        # working through several carts): the result for this one must not
+        # depend on it
+        try:
+            compress.compress_code(p['warmup'].encode('latin-1'))
+        except Exception as e:
+            x.check('compress_code does not raise', False, info=repr(e))
+            return
     arg = text
     if p.get('as_bytearray'):
         # a caller that holds its text in a bytearray: compressing must not
@@ -197,7 +206,16 @@ def header_sym(n):
 FUTURE1 = compress.PICO8_FUTURE_CODE1.decode('latin-1')
 FUTURE2 = compress.PICO8_FUTURE_CODE2.decode('latin-1')
 Q = {'_budget': 300}
+K17 = 'abcdefghijklmnopq'
+UP = 'ABCDEFGHIJKLMNOPQRSTUVWXYZ0123456789'
+HISTORY = [dict(Q, n=1, warmup=w, pre=UP[:k], mid=m, post='!')
+           for w, k, m in (('AB' + K17 + K17, 22, K17), (K17 + K17, 17, K17),
+                           (K17 + 'xy' + K17 + K17, 36, K17 + 'z'),
+                           ('function f()\n return 1\nend\n' * 3, 30,
+                            'function f()\n return 1\nend\n'))]
 HARNESSES = [
+    Harness('history', roundtrip, quick=HISTORY[:2],
+            thorough=[dict(h, n=2, _budget=1800) for h in HISTORY]),
     Harness('roundtrip', roundtrip,
             quick=[dict(Q, n=n) for n in (0, 1, 2, 3, 4)],
             thorough=[dict(Q, n=n, _budget=1200) for n in (0, 1, 2, 3, 4, 5,
